@@ -321,6 +321,33 @@ def caller_table(v, pname):
     return False
 
 
+def _offset_only_in_unfollowed_calls(facts, val, pos):
+    """The call of a repository function / local closure inside `val` that hides every occurrence of `pos` (None when `pos` does not
+    occur, or occurs in the open: arithmetic, a method of the item, a constructor argument)."""
+    if not IS.contains(val, pos):
+        return None
+    found = []
+
+    def walk(t):
+        # True when pos occurs in t outside any unfollowed call
+        if t == pos:
+            return True
+        if not isinstance(t, tuple):
+            return False
+        if t and t[0] == 'call' and len(t) == 4 and isinstance(t[1], str) and t[1] in facts.funcs and IS.contains(t, pos):
+            from .pathwalk import imm_eval_wrappers
+            if t[1] in imm_eval_wrappers(facts):
+                return True          # the evaluation of an immediate at this offset: understood (a baking site)
+            found.append(t)
+            return False
+        if t and t[0] == 'callv' and IS.contains(t, pos):
+            found.append(t)
+            return False
+        return any(walk(x) for x in t)
+    in_the_open = walk(val)
+    return found[0] if (found and not in_the_open) else None
+
+
 def pass_effects(facts):
     """{pass name: set of effects} with MUT (writes labels), BAKE (stores a label-dependent evaluation into an item)."""
     out = {}
@@ -339,6 +366,13 @@ def pass_effects(facts):
             # a value computed from the running offset is stored into an emitted item (align padding): it is only right if no
             # later pass changes the size of anything before it
             if pa.pos_var is not None and any(IS.contains(val, ('lv', pa.pos_var)) for val, n in r['app_values']):
+                for val, n in r['app_values']:
+                    hidden = _offset_only_in_unfollowed_calls(facts, val, ('lv', pa.pos_var))
+                    if hidden is not None:
+                        # the running offset is handed to a helper that is not followed, and the helper's result is what reaches the
+                        # item (the name of a form chosen by a search, say): whether bytes depend on the offset is not known
+                        raise AnalysisError('{}: the item appended at line {} is built from {}, a call that takes the running offset and is not followed'.format(
+                            name, getattr(n, 'lineno', '?'), show(hidden)[:80]))
                 eff.add('BAKE')
                 eff.add('POSBAKE')
         for s in sites:
